@@ -141,3 +141,21 @@ func errList(es []*errors.Error) string {
 	}
 	return b.String()
 }
+
+// disturb: another parse between the parse of a program and the look at its tree — a tree must stay what it is while the
+// library goes on working (pools, builders and buffers recycled too early show only then). Alternates between the two
+// parsers and between a clean and a malformed program.
+var disturbN int
+
+func disturb() {
+	disturbN++
+	src := []byte("<?php namespace N; use A\\B; class C extends D { function m(E $e = null) { return [$e->f(1, \"x$y\"), <<<T\n$z\nT\n]; } } $q = ;")
+	if disturbN%2 == 0 {
+		src = src[:len(src)-7]
+	}
+	v := drive.V74
+	if disturbN%4 >= 2 {
+		v = drive.V56
+	}
+	drive.Parse(src, v, disturbN%3 != 0)
+}
